@@ -46,7 +46,22 @@ ASSUMPTIONS = [
     'them against an independent census',
 ]
 
+GB_SIZE = 10   # gb_size in select_marker_genes_v2 (see translate())
+
 ALL_CONFIGS = [(p, c) for c in (0, 1, su.INF_CUTOFF) for p in (1, 2, 3, 4)]
+
+
+def call_model(ctx, op, inp):
+    return ctx.model(op, {k: v for k, v in inp.items() if k != 'decode'})
+
+
+def decode_ids(inp, ids):
+    """model gene ids -> reference ids (identity unless the gene list was
+    compressed for the model)"""
+    if ids is None or inp.get('decode') is None:
+        return ids
+    dec = inp['decode']
+    return [dec[i] if i < len(dec) else -1 for i in ids]
 
 
 def ids_of(prob, names):
@@ -69,7 +84,13 @@ def model_input(prob, orders, traces, cutoff, policy='trace', behemoth=None):
         if behemoth is not None:
             e['behemoth'] = behemoth
         parents.append(e)
-    return {'table': prob.table_json(), 'query': prob.query_ids(),
+    table, query, decode = prob.model_tables(
+        [g for e in parents for g in e['trace']])
+    if decode is not None:
+        new = {g: i for i, g in enumerate(decode)}
+        for e in parents:
+            e['trace'] = [new.get(g, len(decode) + 999) for g in e['trace']]
+    return {'table': table, 'query': query, 'decode': decode,
             'parents': parents, 'cutoff': cutoff, 'policy': policy}
 
 
@@ -157,9 +178,9 @@ def check_problem(ctx, prob, configs, ref_list_configs=(), source='gen',
             if ctx.driver_ok:
                 # no trace to replay: run the model under a legal policy;
                 # whatever error remains is a genuine rejection
-                r = ctx.model('selection.select_all',
-                              model_input(prob, orders, {}, cutoff,
-                                          policy='first'))
+                r = call_model(ctx, 'selection.select_all',
+                               model_input(prob, orders, {}, cutoff,
+                                           policy='first'))
                 model_err = r.get('err')
                 if model_err is None:
                     bad = [x.get('err') for x in r['ok'] if 'err' in x]
@@ -228,14 +249,14 @@ def check_problem(ctx, prob, configs, ref_list_configs=(), source='gen',
         if not ctx.driver_ok:
             continue
         inp = model_input(prob, orders, out, cutoff)
-        r = ctx.model('selection.select_all', inp)
+        r = call_model(ctx, 'selection.select_all', inp)
         bad = None
         if 'err' in r:
             bad = ('whole', r['err'])
         else:
             for parent, res in zip(want_parents, r['ok']):
                 impl_ids = ids_of(prob, out[parent])
-                if res.get('ok') != impl_ids:
+                if decode_ids(inp, res.get('ok')) != impl_ids:
                     bad = (su.parent_key(parent), res, impl_ids)
                     break
                 ctx.traces += 1
@@ -260,7 +281,7 @@ def check_problem(ctx, prob, configs, ref_list_configs=(), source='gen',
 
 def compare_detail(ctx, prob, inp, parents, log):
     """exit state of the model vs the facts _run_selection logs"""
-    r = ctx.model('selection.detail', inp)
+    r = call_model(ctx, 'selection.detail', inp)
     if 'err' in r:
         return ('detail', r['err'])
     for parent, res in zip(parents, r['ok']):
@@ -310,7 +331,7 @@ def model_self_check(ctx, prob):
         for beh in (False, True):
             inp = model_input(prob, orders, {}, 0, policy=policy,
                               behemoth=beh)
-            r = ctx.model('selection.detail', inp)
+            r = call_model(ctx, 'selection.detail', inp)
             if 'err' in r:
                 continue
             row = []
@@ -322,7 +343,8 @@ def model_self_check(ctx, prob):
                         {'kind': 'problem', 'problem': prob.to_json(),
                          'broken': 'model self check'}, found_input=False)
                     return
-                names = [prob.ref_genes[i] for i in res['ok']['chosen']]
+                names = [prob.ref_genes[i] for i in
+                         decode_ids(inp, res['ok']['chosen'])]
                 fails = su.check_selection(prob, parent, names)
                 if fails:
                     ctx.violation(
@@ -447,6 +469,23 @@ def run(ctx):
         prob, writer = su.real_problem(rng)
         check_problem(ctx, prob, [(1 + k % 4, 0), (2, su.INF_CUTOFF)],
                       [(2, 1)], source='real', writer=writer)
+    # integer-width boundaries of the pair index arrays: a parent with exactly
+    # 255/256/257 relevant pairs on the downsampled path (local indices up to
+    # 254/255/256) and a root whose largest global pair index is 254/255/256
+    # on the full-table path
+    for target in (255, 256, 257):
+        check_problem(ctx, su.boundary_problem(rng, target, 'local'),
+                      [(2, su.INF_CUTOFF), (1, 0)], source='boundary')
+        check_problem(ctx, su.boundary_problem(rng, target - 1, 'global'),
+                      [(1, 0), (2, su.INF_CUTOFF)], source='boundary')
+    # more leaf pairs than one block of create_utility_array (the block is
+    # round(gb_size*1024**3/(3*n_genes)) pairs): ~200k genes, very sparse
+    check_problem(ctx, su.many_genes_problem(rng, gb_size=GB_SIZE),
+                  [(2, su.INF_CUTOFF)], source='many_genes')
+    if thorough:
+        check_problem(ctx, su.many_genes_problem(
+            rng, n_genes=rng.randint(120000, 260000), gb_size=GB_SIZE),
+            [(1, 0)], source='many_genes')
     for _ in range(n_edge_rounds):
         for prob, predicates in edge_problems(rng):
             check_problem(ctx, prob,
